@@ -6,6 +6,7 @@ import (
 	"bytes"
 	"encoding/binary"
 	"fmt"
+	"io"
 	"net"
 	"os"
 	"path/filepath"
@@ -227,6 +228,11 @@ func runFaults(env *Env) error {
 			return err
 		}
 		ticks = lsRef.Dfs.Tick
+		for k := range ref.steps {
+			if k < len(sc.reqs) {
+				ref.steps[k] = sansOpenTime(sc.reqs[k], ref.steps[k])
+			}
+		}
 		refID := fmt.Sprintf("faults-%s-ref", sc.name)
 		if ref.leak != 0 {
 			env.OracleFail(refID, fmt.Sprintf("[C13-leak] %d handles left open after the fault-free scenario", ref.leak))
@@ -246,6 +252,7 @@ func runFaults(env *Env) error {
 				if k >= len(ref.steps) {
 					break
 				}
+				so = sansOpenTime(sc.reqs[k], so)
 				if strict {
 					if !bytes.Equal(so.out, ref.steps[k].out) || so.closed != ref.steps[k].closed {
 						env.OracleFail(id, fmt.Sprintf("[C13-short] %s: request %d %s answered differently from the run without short reads (%d vs %d bytes)", what, k, sc.reqs[k].String(), len(so.out), len(ref.steps[k].out)))
@@ -255,6 +262,11 @@ func runFaults(env *Env) error {
 				}
 				if ok, why := faultAnswerOK(sc.reqs[k], ref.steps[k], so, ref.steps, sc.reqs); !ok {
 					env.OracleFail(id, fmt.Sprintf("[C13-wrong] %s: request %d %s: %s", what, k, sc.reqs[k].String(), why))
+					if os.Getenv("VERIF_DEBUG") != "" {
+						for j, x := range res.steps {
+							fmt.Fprintf(os.Stderr, "DEBUG %s step %d: %d bytes closed=%v (ref %d)\n", id, j, len(x.out), x.closed, len(ref.steps[j].out))
+						}
+					}
 					break
 				}
 			}
@@ -330,7 +342,10 @@ func runFaults(env *Env) error {
 		}
 		// (4) every way of ending the connection at every request boundary
 		for cut := 0; cut <= len(chunks); cut++ {
-			for _, ending := range []string{"eof", "bad-opcode", "mid-request", "reset"} {
+			for _, ending := range []string{"eof", "bad-opcode", "mid-request", "reset", "timeout-idle", "timeout-mid-request"} {
+				if strings.HasPrefix(ending, "timeout") && env.Tier != "thorough" && cut%3 != si%3 {
+					continue // (each waits for the timeout to pass)
+				}
 				id := fmt.Sprintf("faults-%s-end%d-%s", sc.name, cut, ending)
 				top, err := fresh(fmt.Sprintf("s%d-e", si))
 				if err != nil {
@@ -342,7 +357,7 @@ func runFaults(env *Env) error {
 				case "bad-opcode":
 					cs = append(cs, append([]byte{0x77, 0x77}, make([]byte, 14)...))
 					os_ = append(os_, 0x7777)
-				case "mid-request":
+				case "mid-request", "timeout-mid-request":
 					cs = append(cs, (&Req{Op: opOpenFile, Path: "/f.bin", Junk: make([]byte, 14)}).Wire()[:19])
 					os_ = append(os_, opOpenFile)
 				}
@@ -350,6 +365,8 @@ func runFaults(env *Env) error {
 				var res *sessResult
 				if ending == "reset" {
 					res, err = runSessionReset(top, sc.allow, cs)
+				} else if strings.HasPrefix(ending, "timeout") {
+					res, err = runSessionStall(top, sc.allow, cs)
 				} else {
 					res, err = runSession(top, sc.allow, cs, os_, 65536, nil)
 				}
@@ -372,6 +389,15 @@ func runFaults(env *Env) error {
 	return nil
 }
 
+// sansOpenTime: a generated image is stamped with the moment it was opened; that field of the OPEN_FILE answer differs
+// between any two runs and is left out of the comparison.
+func sansOpenTime(q *Req, so stepObs) stepObs {
+	if q.Op == opOpenFile && strings.Contains(q.Path, "***") && len(so.out) == 16 && !allFF(so.out[:8]) {
+		so.out = append(append([]byte(nil), so.out[:8]...), make([]byte, 8)...)
+	}
+	return so
+}
+
 // runSessionReset: the client's side of the connection is torn down (reads and writes fail) after the chunks
 func runSessionReset(top string, allow bool, chunks [][]byte) (*sessResult, error) {
 	ls := NewLibServer(filepath.Join(top, "R"), allow, time.Unix(tmutUnix, 0), 0, 65536)
@@ -391,5 +417,27 @@ func runSessionReset(top string, allow bool, chunks [][]byte) (*sessResult, erro
 	c.Close() // both directions fail from now on: a reset
 	res.goroutineEnded = ls.WaitDisconnect(10 * time.Second)
 	res.leak = ls.Dfs.Live()
+	return res, nil
+}
+
+// runSessionStall: the client sends the chunks and then neither sends anything more nor closes; the server is configured
+// with a read timeout and has to end the connection - and release what it holds - on its own.
+func runSessionStall(top string, allow bool, chunks [][]byte) (*sessResult, error) {
+	ls := NewLibServer(filepath.Join(top, "R"), allow, time.Unix(tmutUnix, 0), 60*time.Millisecond, 65536)
+	defer ls.Stop()
+	a, b := net.Pipe()
+	ls.Connect(b)
+	go func() { _, _ = io.Copy(io.Discard, a) }() // the responses are judged by the other endings; here they are only drained
+	res := &sessResult{}
+	for _, ch := range chunks {
+		_ = a.SetWriteDeadline(time.Now().Add(5 * time.Second))
+		if _, err := a.Write(ch); err != nil {
+			res.closedByServer = true
+			break
+		}
+	}
+	res.goroutineEnded = ls.WaitDisconnect(5 * time.Second)
+	res.leak = ls.Dfs.Live()
+	a.Close()
 	return res, nil
 }
